@@ -1,4 +1,5 @@
 """C11 - console output is thread-safe under every interleaving."""
+import io
 import re
 
 from rv.core.runner import WL
@@ -184,9 +185,13 @@ def wl_redirected_prints(ctx, rng, case_no):
     all threads)."""
     from rv.sched import scheduler as S
     nthreads = rng.choice([2, 2, 3])
-    prog = [[["pyprint", "T%d.%d" % (th, i)] for i in range(rng.randint(1, 3))] for th in range(nthreads)]
+    prog = [[["pyprint" if rng.random() < 0.8 else "pyflush", "T%d.%d" % (th, i)] for i in range(rng.randint(1, 3))]
+            for th in range(nthreads)]
     if rng.random() < 0.3:
         prog[0].append(["print", "T0.9", 1])
+    if rng.random() < 0.3:
+        # one of the threads stops the display while the others may still be printing (or flushing a fragment)
+        prog[rng.randrange(nthreads)].append(["stop"])
     strat_kind = rng.choice(["pct2", "pct3", "random", "random"])
     sseed = rng.randrange(1 << 30)
     if strat_kind == "random":
@@ -195,10 +200,15 @@ def wl_redirected_prints(ctx, rng, case_no):
         strategy = S.PCT(sseed, depth=int(strat_kind[3]), est_steps=rng.choice([200, 600]))
     import sys
     saved = (sys.stdout, sys.stderr)
+    # what the display restores when it stops are these two, not the process's real streams: prints that come after a
+    # worker's stop() land here and count as delivered
+    holder["std_dummies"] = (io.StringIO(), io.StringIO())
+    sys.stdout, sys.stderr = holder["std_dummies"]
     try:
         execute(ctx, prog, "live", True, 0, 12, strategy, strat_kind, sseed)
     finally:
         sys.stdout, sys.stderr = saved
+        holder["std_dummies"] = None
 
 
 def wl_nonterminal_live(ctx, rng, case_no):
@@ -275,7 +285,7 @@ def execute(ctx, prog, display, terminal, firings, height, strategy, strat_kind,
     console._record_buffer_lock = coop.CoopRLock(sched, "console._record_buffer_lock")
     events = []          # (step, thread, kind, detail)
     # builtin print() from the threads goes through the display's redirect (sys.stdout is a FileProxy while it runs)
-    redirect = any(op[0] == "pyprint" for ops in prog for op in ops)
+    redirect = any(op[0] in ("pyprint", "pyflush") for ops in prog for op in ops)
     import sys as _sys
     saved_std = (_sys.stdout, _sys.stderr)
     cur_op = {}          # thread name -> kind of the operation it is executing
@@ -318,6 +328,9 @@ def execute(ctx, prog, display, terminal, firings, height, strategy, strat_kind,
             LOG_SITES[th % 2][0](console, Text("B:%s E:%s" % (op[1], op[1])))
         elif k == "pyprint":
             print("B:%s E:%s" % (op[1], op[1]), file=_sys.stderr if th % 2 else _sys.stdout)
+        elif k == "pyflush":
+            # a fragment without a line end, flushed at once (a prompt, a progress dot)
+            print("B:%s E:%s" % (op[1], op[1]), end="", flush=True, file=_sys.stderr if th % 2 else _sys.stdout)
         elif k == "capture":
             with console.capture() as cap:
                 console.print(Text("\n".join(payload_lines(op[1], 2))))
@@ -401,14 +414,21 @@ def execute(ctx, prog, display, terminal, firings, height, strategy, strat_kind,
     writers = set()
     for th, ops in enumerate(prog):
         for op in ops:
-            if op[0] in ("print", "log", "pyprint", "batch_capture"):
+            if op[0] in ("print", "log", "pyprint", "pyflush", "batch_capture"):
                 pid = op[2] if op[0] == "batch_capture" else op[1]
                 b, e = "B:%s" % pid, "E:%s" % pid
                 nb, ne = len(re.findall(re.escape(b) + r"(?!\d)", text)), len(re.findall(re.escape(e) + r"(?!\d)", text))
+                if op[0] in ("pyprint", "pyflush") and holder.get("std_dummies"):
+                    # (after a worker stopped the display the builtin print writes to the restored streams)
+                    late = "".join(d.getvalue() for d in holder["std_dummies"])
+                    nb += len(re.findall(re.escape(b) + r"(?!\d)", late))
+                    ne += len(re.findall(re.escape(e) + r"(?!\d)", late))
                 if nb != 1 or ne != 1:
                     kind = "lost" if nb == 0 or ne == 0 else "duplicated"
                     ctx.violation("print-output-%s:%s" % (kind, display), dict(wit, payload=pid, begins=nb, ends=ne))
                     return
+                if b not in text or e not in text:
+                    continue            # (delivered to the restored stream after the display had stopped)
                 seg = text[text.index(b):text.index(e)]
                 others = [m for m in _MARK.findall(seg) if not m[2:].startswith(pid)]
                 if others or _FRAME.search(seg):
